@@ -336,9 +336,16 @@ fn resolve_constants(exprs: &HashMap<&str, &SpannedExpr>) -> Result<HashMap<Stri
     match graph.topological_sort() {
         Ok(sorted) => {
             let mut results = HashMap::new();
+            let mut widths: HashMap<&str, WireWidth> = HashMap::new();
             for name in sorted {
-                match exprs.get(&name).unwrap().evaluate(&results) {
+                let mut expr = (*exprs.get(&name).unwrap()).clone();
+                let checked = expr.get_width_and_check(&widths, &results).and_then(|_| {
+                    expr.fix_mux_widths(&widths, &results);
+                    expr.evaluate(&results)
+                });
+                match checked {
                     Ok(value) => {
+                        widths.insert(name, value.width);
                         results.insert(
                             String::from(name),
                             value
@@ -747,6 +754,8 @@ impl Program {
         let mut register_banks = Vec::new();
         let mut errors = Vec::new();
         let mut seen_registers : HashMap<String, Span> = HashMap::new();
+        let constant_widths: HashMap<&str, WireWidth> =
+            constants.iter().map(|(name, value)| (name.as_str(), value.width)).collect();
         for decl in &register_banks_raw {
             // FIXME: should really iterate over graphemes
             let name_chars: Vec<char> = decl.name.chars().collect();
@@ -827,7 +836,12 @@ impl Program {
                     continue;
                 }
 
-                match register.default.evaluate(&constants) {
+                let mut default = register.default.clone();
+                let checked = default.get_width_and_check(&constant_widths, &constants).and_then(|_| {
+                    default.fix_mux_widths(&constant_widths, &constants);
+                    default.evaluate(&constants)
+                });
+                match checked {
                     Ok(value) => {
                         if None == value.width.combine(register.width) {
                             errors.push(Error::MismatchedRegisterDefaultWidths {
